@@ -60,4 +60,250 @@ theorem fires_core {now : Nat} {t : State} (hinv : WakeInv now t) {d : Nat} {e :
         · subst hx; exact hlt
         · exact h3 x hx
 
+/-! ### exactly once, and only when due -/
+
+/-- no entry of sleep `sid` is registered anywhere -/
+def NoSid (sid : Nat) (p : List Slot) : Prop := ∀ s ∈ p, ∀ x ∈ s.entries, x.sid ≠ sid
+/-- entries of sleep `sid` are registered only in the slot with deadline `d` -/
+def OnlyAt (sid d : Nat) (p : List Slot) : Prop := ∀ s ∈ p, ∀ x ∈ s.entries, x.sid = sid → s.time = d
+
+def Op.registers (sid : Nat) : Op → Bool
+  | .register _ s _ => s == sid
+  | _ => false
+
+theorem onlyAt_add {sid d : Nat} {p : List Slot} (h : OnlyAt sid d p) {e : Entry} (he : e.sid ≠ sid) (t : Nat) :
+    OnlyAt sid d (add p e t) := by
+  intro s' hs' x hx hxs
+  rcases mem_add p e t s' hs' with hm | ⟨ht, old, hold, hsrc⟩
+  · exact h s' hm x hx hxs
+  · rw [hold] at hx
+    rcases List.mem_append.mp hx with hx | hx
+    · rcases hsrc with hnil | ⟨s0, hs0, ht0, he0⟩
+      · rw [hnil] at hx; cases hx
+      · rw [ht, ← ht0]; exact h s0 hs0 x (by rw [he0]; exact hx) hxs
+    · rw [List.mem_singleton.mp hx] at hxs; exact absurd hxs he
+
+theorem onlyAt_removeEntry {sid d : Nat} {p : List Slot} (h : OnlyAt sid d p) (hh s : Nat) :
+    OnlyAt sid d (removeEntry p hh s) := by
+  intro s' hs' x hx hxs
+  obtain ⟨s0, hs0, ht, hsub, _⟩ := mem_removeEntry hs'
+  rw [ht]; exact h s0 hs0 x (hsub x hx) hxs
+
+theorem findEntry_mem {p : List Slot} {h sid : Nat} {e : Entry} (hf : findEntry p h sid = some e) :
+    ∃ s ∈ p, e ∈ s.entries := by
+  unfold findEntry at hf
+  split at hf
+  · rename_i s hs
+    exact ⟨s, List.mem_of_find?_eq_some hs, List.mem_of_find?_eq_some hf⟩
+  · cases hf
+
+theorem onlyAt_applyOp {sid d : Nat} {t : State} {o : Op} (h : OnlyAt sid d t.pending)
+    (h1 : o.registers sid = false) (h2 : o.touches sid = false) : OnlyAt sid d (applyOp t o).pending := by
+  cases o with
+  | register d' s tid =>
+    refine onlyAt_add h ?_ d'
+    intro heq; simp [Op.registers] at h1; exact h1 heq
+  | remove hh s => exact onlyAt_removeEntry h hh s
+  | reset hh s d' =>
+    simp only [applyOp, resetEntry]
+    split
+    · exact h
+    · rename_i e' hf
+      have hne : e'.sid ≠ sid := by
+        rw [findEntry_sid hf]; intro heq; simp [Op.touches, heq] at h2
+      exact onlyAt_removeEntry (onlyAt_add (onlyAt_removeEntry h _ _) hne d') _ _
+
+theorem onlyAt_applyOps {sid d : Nat} {t : State} {ops : List Op} (h : OnlyAt sid d t.pending)
+    (h1 : ∀ o ∈ ops, o.registers sid = false) (h2 : ∀ o ∈ ops, o.touches sid = false) :
+    OnlyAt sid d (applyOps t ops).pending := by
+  induction ops generalizing t with
+  | nil => exact h
+  | cons o r ih =>
+    simp only [applyOps, List.foldl_cons] at ih ⊢
+    exact ih (onlyAt_applyOp h (h1 o List.mem_cons_self) (h2 o List.mem_cons_self))
+      (fun o' ho' => h1 o' (List.mem_cons_of_mem _ ho')) (fun o' ho' => h2 o' (List.mem_cons_of_mem _ ho'))
+
+theorem noSid_add {sid : Nat} {p : List Slot} (h : NoSid sid p) {e : Entry} (he : e.sid ≠ sid) (t : Nat) :
+    NoSid sid (add p e t) := by
+  intro s' hs' x hx
+  rcases mem_add p e t s' hs' with hm | ⟨_, old, hold, hsrc⟩
+  · exact h s' hm x hx
+  · rw [hold] at hx
+    rcases List.mem_append.mp hx with hx | hx
+    · rcases hsrc with hnil | ⟨s0, hs0, _, he0⟩
+      · rw [hnil] at hx; cases hx
+      · exact h s0 hs0 x (by rw [he0]; exact hx)
+    · rw [List.mem_singleton.mp hx]; exact he
+
+theorem noSid_removeEntry {sid : Nat} {p : List Slot} (h : NoSid sid p) (hh s : Nat) :
+    NoSid sid (removeEntry p hh s) := by
+  intro s' hs' x hx
+  obtain ⟨s0, hs0, _, hsub, _⟩ := mem_removeEntry hs'
+  exact h s0 hs0 x (hsub x hx)
+
+/-- once the sleep's entry is gone, nothing but a new registration brings it back -/
+theorem noSid_applyOp {sid : Nat} {t : State} {o : Op} (h : NoSid sid t.pending)
+    (h1 : o.registers sid = false) : NoSid sid (applyOp t o).pending := by
+  cases o with
+  | register d' s tid =>
+    refine noSid_add h ?_ d'
+    intro heq; simp [Op.registers] at h1; exact h1 heq
+  | remove hh s => exact noSid_removeEntry h hh s
+  | reset hh s d' =>
+    simp only [applyOp, resetEntry]
+    split
+    · exact h
+    · rename_i e' hf
+      obtain ⟨s0, hs0, he0⟩ := findEntry_mem hf
+      exact noSid_removeEntry (noSid_add (noSid_removeEntry h _ _) (h s0 hs0 e' he0) d') _ _
+
+theorem noSid_applyOps {sid : Nat} {t : State} {ops : List Op} (h : NoSid sid t.pending)
+    (h1 : ∀ o ∈ ops, o.registers sid = false) : NoSid sid (applyOps t ops).pending := by
+  induction ops generalizing t with
+  | nil => exact h
+  | cons o r ih =>
+    simp only [applyOps, List.foldl_cons] at ih ⊢
+    exact ih (noSid_applyOp h (h1 o List.mem_cons_self)) (fun o' ho' => h1 o' (List.mem_cons_of_mem _ ho'))
+
+/-- nobody registers sleep `sid` (again) in these events -/
+def NoReg (sid : Nat) (evs : List Ev) : Prop :=
+  ∀ ev ∈ evs, (∀ o ∈ ev.pre, o.registers sid = false) ∧ (∀ o ∈ ev.ops, o.registers sid = false)
+
+theorem noSid_sublist {sid : Nat} {p q : List Slot} (h : NoSid sid p) (hq : ∀ s ∈ q, s ∈ p) : NoSid sid q :=
+  fun s hs => h s (hq s hs)
+
+theorem noSid_never_woken {sid : Nat} {t : State} (h : NoSid sid t.pending) (evs : List Ev) (hr : NoReg sid evs) :
+    ∀ x ∈ (runEvs t evs).2, ∀ y ∈ x.2, y.sid ≠ sid := by
+  induction evs generalizing t with
+  | nil => intro x hx; cases hx
+  | cons ev es ih =>
+    have hre := hr ev List.mem_cons_self
+    have h0 : NoSid sid (applyOps t ev.pre).pending := noSid_applyOps h hre.1
+    rw [runEvs_cons]
+    intro x hx
+    rcases List.mem_cons.mp hx with hx | hx
+    · subst hx
+      intro y hy
+      simp only at hy
+      rw [stepEv_snd] at hy
+      obtain ⟨s, hs, hys⟩ := List.mem_flatMap.mp hy
+      exact h0 s ((List.takeWhile_sublist _).subset hs) y hys
+    · refine ih ?_ (fun ev' h' => hr ev' (List.mem_cons_of_mem _ h')) x hx
+      rw [stepEv_pending]
+      apply noSid_applyOps _ hre.2
+      exact noSid_sublist h0 (fun s hs => (List.dropWhile_sublist _).subset hs)
+
+/-- **Exactly once, exactly at the deadline.** As `fires_core`, for a sleep whose entries are only in
+    the slot `d` and which nobody registers again: the entry is woken by the event at time `d`, by no
+    event before it and by no event after it. -/
+theorem fires_once {now : Nat} {t : State} (hinv : WakeInv now t) {d : Nat} {e : Entry}
+    (hl : HasEntry t.pending d e) (hd : d < tMax) (ho : OnlyAt e.sid d t.pending) (evs : List Ev)
+    (hc : Consistent t evs) (hkeep : Keeps e.sid d evs) (hreg : NoReg e.sid evs)
+    (hdone : (runEvs t evs).1.wakeups = []) :
+    ∃ pre w post, (runEvs t evs).2 = pre ++ (d, w) :: post ∧ e ∈ w ∧
+      (∀ x ∈ pre, x.1 < d ∧ e ∉ x.2) ∧ (∀ x ∈ post, e ∉ x.2) := by
+  induction evs generalizing now t with
+  | nil =>
+    obtain ⟨_, hmem, _, _⟩ := live_has_wakeup hinv hl hd
+    simp only [runEvs] at hdone
+    rw [hdone] at hmem
+    cases hmem
+  | cons ev es ih =>
+    obtain ⟨_, hmem, _, hle⟩ := live_has_wakeup hinv hl hd
+    have hev : ev.time ≤ d := Nat.le_trans (hc.1.1 _ hmem) hle
+    have hk := hkeep ev List.mem_cons_self
+    have hre := hreg ev List.mem_cons_self
+    have hl0 : HasEntry (applyOps t ev.pre).pending d e := hasEntry_applyOps (hk.1 hev) hl
+    have hs0 : Sorted (applyOps t ev.pre).pending := sorted_applyOps _ hinv.sorted
+    have ho0 : OnlyAt e.sid d (applyOps t ev.pre).pending := onlyAt_applyOps ho hre.1 (hk.1 hev)
+    rw [runEvs_cons]
+    by_cases heq : ev.time = d
+    · obtain ⟨s, hs, ht, he⟩ := hl0
+      refine ⟨[], (stepEv t ev).2, (runEvs (stepEv t ev).1 es).2, ?_, ?_, ?_, ?_⟩
+      · simp [heq]
+      · rw [stepEv_snd]
+        exact List.mem_flatMap.mpr ⟨s, mem_takeWhile_of_le hs0 hs (by omega), he⟩
+      · intro x hx; cases hx
+      · -- after the event at `d` no entry of the sleep is left, and none comes back
+        have hno : NoSid e.sid (stepEv t ev).1.pending := by
+          rw [stepEv_pending]
+          apply noSid_applyOps _ hre.2
+          intro s' hs' x hx hxs
+          have hgt := dropWhile_gt hs0 s' hs'
+          have := ho0 s' ((List.dropWhile_sublist _).subset hs') x hx hxs
+          omega
+        intro x hx hex
+        exact noSid_never_woken hno es (fun ev' h' => hreg ev' (List.mem_cons_of_mem _ h')) x hx e hex rfl
+    · have hlt : ev.time < d := by omega
+      have hl1 : HasEntry (stepEv t ev).1.pending d e := by
+        rw [stepEv_pending]
+        apply hasEntry_applyOps (hk.2 hlt)
+        obtain ⟨s, hs, ht, he⟩ := hl0
+        exact ⟨s, mem_dropWhile_of_gt hs (by omega), ht, he⟩
+      have ho1 : OnlyAt e.sid d (stepEv t ev).1.pending := by
+        rw [stepEv_pending]
+        apply onlyAt_applyOps _ hre.2 (hk.2 hlt)
+        intro s' hs' x hx hxs
+        exact ho0 s' ((List.dropWhile_sublist _).subset hs') x hx hxs
+      have hdone' : (runEvs (stepEv t ev).1 es).1.wakeups = [] := by
+        rw [runEvs_cons] at hdone; exact hdone
+      obtain ⟨pre, w, post, h1, h2, h3, h4⟩ :=
+        ih (wakeinv_step hinv hc.1) hl1 ho1 hc.2 (fun ev' h' => hkeep ev' (List.mem_cons_of_mem _ h'))
+          (fun ev' h' => hreg ev' (List.mem_cons_of_mem _ h')) hdone'
+      refine ⟨(ev.time, (stepEv t ev).2) :: pre, w, post, ?_, h2, ?_, h4⟩
+      · simp [h1]
+      · intro x hx
+        rcases List.mem_cons.mp hx with hx | hx
+        · subst hx
+          refine ⟨hlt, ?_⟩
+          simp only
+          rw [stepEv_snd]
+          intro hmem'
+          obtain ⟨s, hs, hes⟩ := List.mem_flatMap.mp hmem'
+          have h1' := takeWhile_le s hs
+          have h2' := ho0 s ((List.takeWhile_sublist _).subset hs) e hes rfl
+          omega
+        · exact h3 x hx
+
+/-- what is left non-empty after drops was non-empty before -/
+theorem nonempty_after_removes {t : State} {ops : List Op} (hr : ∀ o ∈ ops, o.isRemove = true) :
+    ∀ s' ∈ (applyOps t ops).pending, s'.entries ≠ [] → ∃ s ∈ t.pending, s.time = s'.time ∧ s.entries ≠ [] := by
+  induction ops generalizing t with
+  | nil => intro s' hs' hne; exact ⟨s', hs', rfl, hne⟩
+  | cons o r ih =>
+    simp only [applyOps, List.foldl_cons] at ih ⊢
+    intro s' hs' hne
+    obtain ⟨s1, hs1, ht1, hne1⟩ := ih (fun o' ho' => hr o' (List.mem_cons_of_mem _ ho')) s' hs' hne
+    have hro := hr o List.mem_cons_self
+    cases o with
+    | remove hh sid =>
+      obtain ⟨s0, hs0, ht0, hsub, _⟩ := mem_removeEntry hs1
+      refine ⟨s0, hs0, by omega, ?_⟩
+      intro hnil
+      cases hx : s1.entries with
+      | nil => exact hne1 hx
+      | cons x xs =>
+        have := hsub x (by rw [hx]; exact List.mem_cons_self)
+        rw [hnil] at this; cases this
+    | register _ _ _ => simp [Op.isRemove] at hro
+    | reset _ _ _ => simp [Op.isRemove] at hro
+
+/-- **Woken only when due.** Under WakeInv every entry that an event's `activate` wakes was
+    registered for exactly the time of that event: no entry is ever woken late (from an overdue
+    slot) — and none early, since `bump` only pops slots `≤ now`. -/
+theorem woken_exactly_due {now : Nat} {t : State} (h : WakeInv now t) {e : Ev} (he : EvOk t e)
+    (hpre : ∀ o ∈ e.pre, o.isRemove = true) (hlt : e.time < tMax) :
+    ∀ x ∈ (stepEv t e).2, HasEntry (applyOps t e.pre).pending e.time x := by
+  intro x hx
+  rw [stepEv_snd] at hx
+  obtain ⟨s, hs, hxs⟩ := List.mem_flatMap.mp hx
+  have hle := takeWhile_le s hs
+  have hmem := (List.takeWhile_sublist _).subset hs
+  have hne : s.entries ≠ [] := by intro hn; rw [hn] at hxs; cases hxs
+  obtain ⟨s0, hs0, ht0, hne0⟩ := nonempty_after_removes hpre s hmem hne
+  have h2 := h.j2 s0 hs0 hne0
+  have h1 := h.j1 (by omega)
+  have := he.1 _ h1.1
+  exact ⟨s, hmem, by omega, hxs⟩
+
 end Timer
